@@ -112,4 +112,6 @@ func c10Extra(r *core.Run) {
 	// detection round 8: the runner the drain handler uses gives its slot back also when the drain function panics
 	c10Round8(r)
 	c10Round9(r, pkg)
+	// detection round 9: a move resets the whole pending schedule; the replacement inherits nothing; the due batch is private to its tick
+	c10Round10(r, pkg)
 }
